@@ -69,7 +69,7 @@ fn token_case(cs: &mut Cases, s: &str) {
     param_case::<BearerToken>(cs, "bearer token", s, spec_token(s), |t| t.as_str().to_string());
 }
 
-/// the same string as a credential: `Authorization: Bearer <s>` and `Cookie: sess=<s>` through generated endpoints
+/// the same string as a credential: `Authorization: Bearer <s>` and `Cookie: Sess_Tok=<s>` through generated endpoints
 /// (conjure-http's `parse_header_auth` / `parse_cookie_auth`), for strings HTTP can carry in a header value
 fn auth_case(cs: &mut Cases, s: &str) {
     // (blanks and tabs are legal inside a header value: a credential with blanks around it is not a token)
@@ -80,7 +80,7 @@ fn auth_case(cs: &mut Cases, s: &str) {
     let valid = spec_token(s);
     let routes: [(&str, crate::svc::RawReq, String); 2] = [
         ("optBinary", crate::svc::RawReq { path_params: vec![], target: "/v/optBinary?present=false".into(), headers: vec![("authorization".into(), format!("Bearer {}", s).into_bytes())], body: vec![] }, format!("optBinary(auth={:?}, present=false)", s)),
-        ("body", crate::svc::RawReq { path_params: vec![], target: "/v/body".into(), headers: vec![("cookie".into(), format!("sess={}", s).into_bytes()), ("content-type".into(), b"application/json".to_vec())], body: vec![b"{\"a\":1,\"b\":\"x\"}".to_vec()] }, format!("body(auth={:?}, ", s)),
+        ("body", crate::svc::RawReq { path_params: vec![], target: "/v/body".into(), headers: vec![("cookie".into(), format!("Sess_Tok={}", s).into_bytes()), ("content-type".into(), b"application/json".to_vec())], body: vec![b"{\"a\":1,\"b\":\"x\"}".to_vec()] }, format!("body(auth={:?}, ", s)),
     ];
     for (ep, req, want) in routes {
         let (ep2, ret2) = (ep.to_string(), ret.clone());
